@@ -433,7 +433,9 @@ struct H
         {
           s += '[';
           int guard = 0;
-          for(auto* it = c.data[bkt]; it && guard < 50; it = it->nextCell, ++guard) s += vf::fmt("%d ", it->key.v);
+          // chain order, and whether every item's back-pointer designates the slot that points at it (a stale one decides a later removal)
+          auto** slot = &c.data[bkt];
+          for(auto* it = c.data[bkt]; it && guard < 50; slot = &it->nextCell, it = it->nextCell, ++guard) s += vf::fmt(it->cell == slot ? "%d " : "%d! ", it->key.v);
           s += ']';
         }
       else s += "nodata";
